@@ -615,11 +615,16 @@ def text_consumers_rule(ctx, rule: str):
             for n in ast.walk(fi.node):
                 if isinstance(n, (ast.Assign, ast.AugAssign)):
                     tg = n.targets if isinstance(n, ast.Assign) else [n.target]
-                    if texty(n.value):
-                        for t in tg:
-                            if isinstance(t, ast.Name) and t.id not in text:
-                                text.add(t.id)
-                                changed = True
+                    pairs = []
+                    for t in tg:
+                        if isinstance(t, (ast.Tuple, ast.List)) and isinstance(n.value, (ast.Tuple, ast.List)) and len(t.elts) == len(n.value.elts):
+                            pairs.extend(zip(t.elts, n.value.elts))  # a, b = x, y
+                        else:
+                            pairs.append((t, n.value))
+                    for t, val in pairs:
+                        if isinstance(t, ast.Name) and t.id not in text and texty(val):
+                            text.add(t.id)
+                            changed = True
         returns_text = any(isinstance(n, ast.Return) and n.value is not None and texty(n.value) for n in ast.walk(fi.node))
         memo[mk] = (text, returns_text)
         return memo[mk]
